@@ -2,3 +2,4 @@ import PetlProofs.Order
 import PetlProofs.Sort
 import PetlProofs.Props.C04
 import PetlProofs.Props.C05
+import PetlProofs.Props.C06
